@@ -9,7 +9,8 @@ export GOFLAGS=-mod=mod GOPROXY=off GOSUMDB=off GOTOOLCHAIN=local
 mkdir -p /tmp/rg; rm -f /tmp/rg/*.res
 jobs=/tmp/rg/jobs.txt; : > $jobs
 for d in seeded/C*/; do
-  s=$(basename $d); p=$(python3 -c "import json;print(json.load(open('$d/meta.json')).get('breaks_property','${s:0:3}'))")
+  s=$(basename $d); p=$(python3 -c "import json;d=json.load(open('$d/meta.json'));print('SKIP' if d.get('obsolete') or d.get('not_detected') else d.get('breaks_property','${s:0:3}'))")
+  [ "$p" = SKIP ] && continue   # a seed whose patch no longer applies (the code it changed was repaired) or that is recorded as not detected
   echo "seed $s $d/patch.diff $p" >> $jobs
 done
 python3 - >> $jobs <<'P'
